@@ -5,10 +5,18 @@ from prov import Prov, params_of
 
 CLAIM = ("(SELECT) the merge step (`closest_clusters`) selects the pair with the MINIMUM distance component; the update function handed to the "
          "arithmetic clustering by `Linkage::single` is a min selection, by `Linkage::complete` a max selection, and by `Linkage::average` the "
-         "mean (a+b)/2 of its two arguments (GUARD: constant divisor 2).")
-NOT_DECIDED = "dendrogram validity, index bookkeeping, the union linkage and the number of distance-callback calls (loop invariants over runtime state)."
+         "mean (a+b)/2 of its two arguments (GUARD: constant divisor 2); (ROLE) size bookkeeping and Cluster::new arguments; (PAIR) every distance update "
+         "of the arithmetic clusterer combines one lookup for key.0 and one for key.1, each pairing the live index with the merged node in the "
+         "(smaller, larger) order established by the dominating Ordering arm; both clusterers take both merged sets out of `sets`; (TABLE) the "
+         "retain predicate of both clusterers keeps an entry iff neither index is a merged node (exact truth table by path enumeration); (FIELD) "
+         "new distances are stored under (live index, new index) with the new index = Vec::len read before the push or len-1 after it.")
+NOT_DECIDED = "dendrogram validity as a whole, the initial distance matrix, the union linkage's distance order and the number of distance-callback calls (loop invariants over runtime state)."
 
 LINK = "stats::linkage::Linkage::<'a>::"
+
+
+def field_names_of(atoms):
+    return {a[2] for a in atoms if a[0] == "field"} | {e[1] for a in atoms if a[0] == "param" for e in a[-1] if e[0] == "f"}
 
 
 def update_fn(prog, pv, body):
@@ -156,3 +164,191 @@ def run(ck, prog, ctx):
                 a1 = {tuple(e[1] for e in at[3] if e[0] == "f") for at in pvn.of_operand(nc, t.args[1]) if at[0] == "param" and at[2] == 2}
                 a2 = {tuple(e[1] for e in at[3] if e[0] == "f") for at in pvn.of_operand(nc, t.args[2]) if at[0] == "param" and at[2] == 2}
                 ck.ob("ROLE", "new_cluster/size-args", a1 == {("0",)} and a2 == {("1",)}, "the size is computed for (key.0, key.1)", where=nc.where(t.line))
+
+    # ---- update rule of the arithmetic linkages: d(new, idx) = func(d(idx, key.0), d(idx, key.1)), each looked up as (smaller, larger)
+    ck.rule("PAIR", "each distance update combines the distance to the FIRST and to the SECOND merged node, each looked up under the (smaller, larger) key order the matrix is filled with (DESIGN 3.2/3.4)")
+    ac = prog.body(LINK + "arithmetic_cluster")
+    if ac is None:
+        ck.undecided("PAIR", "update/lookups", "private helper arithmetic_cluster not found")
+        return
+    pvl = Prov(prog, inline=False, mutflow=False)
+
+    def comp_in(host, atoms):
+        """K0 / K1: component of the merged pair returned by closest_clusters; IDX: the enumerate index of the live-set loop"""
+        out = set()
+        for a in atoms:
+            if a[0] == "call" and a[1].endswith("::closest_clusters"):
+                p = tuple(e[1] for e in a[-1] if e[0] == "f")
+                if len(p) == 2 and p[0] == "0":
+                    out.add("K" + p[1])
+                elif len(p) < 2:
+                    out.add("K?")
+            elif a[0] == "call" and a[1].endswith("::next") and a[3] == host.id:
+                p = tuple(e[1] for e in a[-1] if e[0] == "f")
+                out.add("IDX" if p[-1:] == ("0",) else "SET")
+        return out
+
+    def comp(atoms):
+        return comp_in(ac, atoms)
+
+    gets = {}
+    for bi, t in ac.calls():
+        if (t.callee.res or "").endswith("DistanceMatrix::get") and len(t.args) == 2:
+            gets[bi] = (t, tuple(frozenset(comp(pvl.of_operand(ac, t.args[1], (("f", i, "tuple"),)))) for i in ("0", "1")))
+    # ordering facts: switch edges on the discriminant of an Ord::cmp result
+    cmps = {}
+    for bi, t in ac.calls():
+        if t.callee.trait == "std::cmp::Ord" and t.callee.method == "cmp" and t.dest is not None:
+            cmps[bi] = tuple(frozenset(comp(pvl.of_operand(ac, a))) for a in t.args[:2])
+    discr_defs = {}
+    for pos, st in ac.stmts():
+        if st.k == "assign" and st.rv["k"] == "discr" and st.place.is_local():
+            src = {a[4] for a in pvl.of_place(ac, st.rv["place"]) if a[0] == "call" and a[3] == ac.id and a[4] in cmps}
+            if len(src) == 1:
+                discr_defs[st.place.local] = next(iter(src))
+    order_edges = []  # (edge, smaller-set, larger-set)
+    for bi in sorted(ac.reach):
+        x = ac.blocks[bi].term
+        if x.k == "switch" and x.discr.place is not None and x.discr.place.local in discr_defs:
+            A, B = cmps[discr_defs[x.discr.place.local]]
+            for v, tg in x.targets:
+                if v in (255, -1):
+                    order_edges.append(((bi, tg), A, B))
+                elif v == 1:
+                    order_edges.append(((bi, tg), B, A))
+    n_upd = 0
+    for bi, t in ac.calls():
+        if not (t.callee.trait in ("std::ops::Fn", "std::ops::FnMut", "std::ops::FnOnce") and params_of(pvl.of_operand(ac, t.args[0]), ac.id) == {2}):
+            continue
+        used = []
+        for i in ("0", "1"):
+            src = [a[4] for a in pvl.of_operand(ac, t.args[1], (("f", i, "tuple"),)) if a[0] == "call" and a[3] == ac.id and a[4] in gets]
+            used.append(src)
+        if any(len(u) != 1 for u in used):
+            ck.undecided("PAIR", "update/%d" % n_upd, "arguments of the update function are not two plain matrix lookups", where=ac.where(t.line))
+            n_upd += 1
+            continue
+        ks = []
+        ok_shape = True
+        for u in used:
+            gt, (c0, c1) = gets[u[0]]
+            both = (set(c0), set(c1))
+            kk = (both[0] | both[1]) & {"K0", "K1"}
+            shape = len(kk) == 1 and (("IDX" in both[0]) != ("IDX" in both[1])) and not (both[0] & both[1])
+            ok_shape &= shape
+            ks.append(sorted(kk)[0] if len(kk) == 1 else "?")
+            # (smaller, larger): only where an ordering fact between the two components dominates the lookup
+            facts_here = [(sm, lg) for e, sm, lg in order_edges if ac.edge_dominates(e, u[0]) and {tuple(sorted(sm)), tuple(sorted(lg))} == {tuple(sorted(c0)), tuple(sorted(c1))}]
+            if shape and facts_here:
+                good = all(sm == c0 and lg == c1 for sm, lg in facts_here)
+                ck.ob("PAIR", "update/%d/order/%s" % (n_upd, ks[-1]), good, "lookup (%s, %s) on the branch where %s < %s" % ("/".join(sorted(c0)), "/".join(sorted(c1)), "/".join(sorted(facts_here[0][0])), "/".join(sorted(facts_here[0][1]))), where=ac.where(gt.line))
+        ck.ob("PAIR", "update/%d/pairs" % n_upd, ok_shape, "each lookup of the update pairs the live index with exactly one merged node", where=ac.where(t.line))
+        ck.ob("PAIR", "update/%d/both" % n_upd, sorted(ks) == ["K0", "K1"], "the update combines the distances to %s (expected one lookup for key.0 and one for key.1)" % " and ".join("key.%s" % k[1:] for k in ks), where=ac.where(t.line))
+        n_upd += 1
+    if n_upd == 0:
+        ck.undecided("PAIR", "update/lookups", "no call of the update function recognised", where=ac.where())
+
+    # ---- both clusterers: the merged pair is retired completely
+    ck.rule("TABLE", "exact truth table of the retain predicate over its four equality tests (path enumeration of the closure body)")
+    import itertools
+    from engines import bool_table, eval_bool_table
+    n_ret = 0
+    for nm in ("arithmetic_cluster", "cluster_set_unions"):
+        host = prog.body(LINK + nm)
+        if host is None:
+            ck.undecided("TABLE", nm + "/retain", "private helper %s not found" % nm)
+            continue
+        rets = [(bi, t) for bi, t in host.calls() if (t.callee.res or "").endswith("DistanceMatrix::retain")]
+        if not rets:
+            ck.undecided("TABLE", nm + "/retain", "no DistanceMatrix::retain call: the retirement of the merged pair's distances is not recognised", where=host.where())
+        for bi, t in rets:
+            cb = prog.bodies.get(pvl.closure_of_operand(host, t.args[1]))
+            if cb is None:
+                ck.undecided("TABLE", nm + "/retain", "retain predicate is not a closure", where=host.where(t.line))
+                continue
+
+            def akey(kind, lo, ro, body):
+                if kind != "Eq":
+                    return None
+                sides = []
+                for o in (lo, ro):
+                    at = pvl.of_operand(body, o)
+                    ent = {tuple(e[1] for e in a[-1] if e[0] == "f") for a in at if a[0] == "param" and a[1] == body.id and a[2] == 2}
+                    ks = {x for x in comp_in(host, at) if x.startswith("K")}
+                    sides.append((ent, ks))
+                for (e1, k1), (e2, k2) in (sides, sides[::-1]):
+                    if len(e1) == 1 and not k1 and len(k2) == 1 and not e2:
+                        e = next(iter(e1))
+                        if len(e) == 1 and e[0] in ("0", "1"):
+                            return ("idx" + str(int(e[0]) + 1), next(iter(k2)))
+                return None
+            rows = bool_table(cb, akey)
+            if rows is None:
+                ck.undecided("TABLE", nm + "/retain", "retain predicate is not a plain combination of (entry index == merged node) tests", where=cb.where())
+                continue
+            keys = sorted({k for asg, r in rows for k in asg} | {r[1] for asg, r in rows if isinstance(r, tuple)})
+            need = [("idx1", "K0"), ("idx1", "K1"), ("idx2", "K0"), ("idx2", "K1")]
+            missing = [k for k in need if k not in keys]
+            n_ret += 1
+            if missing:
+                ck.ob("TABLE", nm + "/retain", False, "%s keeps distance entries without testing %s: distances to a retired node stay in the matrix" % (nm, ", ".join("%s == key.%s" % (a, b[1:]) for a, b in missing)), where=cb.where())
+                continue
+            bad = None
+            for bits in itertools.product((False, True), repeat=len(keys)):
+                full = dict(zip(keys, bits))
+                got = eval_bool_table(rows, full)
+                want = not any(full[k] for k in need)
+                if got is None or got != want:
+                    bad = (full, got, want)
+                    break
+            ck.ob("TABLE", nm + "/retain", bad is None, "%s keeps an entry iff neither index is one of the merged nodes (%d-row truth table over %s)%s" % (nm, 2 ** len(keys), ["%s==key.%s" % (a, b[1:]) for a, b in keys], "" if bad is None else "; differs for %s: keeps=%s, expected %s" % ({"%s==key.%s" % (a, b[1:]): v for (a, b), v in bad[0].items()}, bad[1], bad[2])), where=cb.where())
+        # both members of the merged pair are taken out of `sets`
+        taken = set()
+        for bi, t in host.calls():
+            if t.callee.method == "take" and (t.callee.impl_self or t.callee.name or "").find("Option") >= 0:
+                at = pvl.of_operand(host, t.args[0])
+                for a in at:
+                    if a[0] == "call" and a[1].endswith("::index_mut") and a[3] == host.id:
+                        it = host.blocks[a[4]].term
+                        taken |= {x for x in comp_in(host, pvl.of_operand(host, it.args[1])) if x.startswith("K")}
+        ck.ob("PAIR", nm + "/takes-both", taken == {"K0", "K1"}, "%s retires %s from `sets` (expected key.0 and key.1)" % (nm, " and ".join("key." + k[1:] for k in sorted(taken)) or "nothing"), where=host.where())
+    ck.floor("TABLE", "retain predicates", n_ret, 2)
+
+    # ---- index of the new cluster: distances to it are stored under (live index, index of the pushed set)
+    ck.rule("FIELD", "the key of a new distance is (live index, index the merged set is pushed at): Vec::len taken before the push, or len - 1 after it (DESIGN 3.9)")
+    pvm = Prov(prog, inline=False, mutflow=False)
+    for nm in ("arithmetic_cluster", "cluster_set_unions"):
+        host = prog.body(LINK + nm)
+        if host is None:
+            continue
+        ins = [(bi, t) for bi, t in host.calls() if (t.callee.res or "").endswith("DistanceMatrix::insert")]
+        pushes = [bi for bi, t in host.calls() if t.callee.method == "push" and "sets" in field_names_of(pvm.of_operand(host, t.args[0]))]
+        if not ins or not pushes:
+            ck.undecided("FIELD", nm + "/new-index", "insert into the distance matrix / push onto `sets` not recognised", where=host.where())
+            continue
+        for bi, t in ins:
+            c0 = pvm.of_operand(host, t.args[1], (("f", "0", "tuple"),))
+            c1 = pvm.of_operand(host, t.args[1], (("f", "1", "tuple"),))
+            k0, k1 = comp_in(host, c0), comp_in(host, c1)
+            lens = [a for a in c1 if a[0] == "call" and a[1].endswith("::len") and a[3] == host.id]
+            lens0 = [a for a in c0 if a[0] == "call" and a[1].endswith("::len") and a[3] == host.id]
+            ok_order = "IDX" in k0 and bool(lens) and "IDX" not in k1
+            ck.ob("FIELD", nm + "/new-key-order", ok_order, "%s stores the new distance under (%s, %s) - expected (live index, new index): the matrix is keyed (smaller, larger)" % (nm, "live index" if "IDX" in k0 else "new index" if lens0 else "?", "live index" if "IDX" in k1 else "new index" if lens else "?"), where=host.where(t.line))
+            src = lens if "IDX" not in k1 else lens0
+            if len(src) != 1:
+                ck.undecided("FIELD", nm + "/new-index", "new index does not come from one Vec::len", where=host.where(t.line))
+                continue
+            len_bb = src[0][4]
+            allc = c1 if "IDX" not in k1 else c0
+            minus1 = any(a[0] == "op" and a[1].startswith("Sub") for a in allc) and any(a[0] == "const" and str(a[2]).startswith("1") for a in allc)
+            other_arith = any(a[0] == "op" and not a[1].startswith("Sub") for a in allc) or (any(a[0] == "op" for a in allc) and not minus1)
+            pushed_before = any(host.dominates(p, len_bb) for p in pushes)
+            pushed_after = any(host.dominates(len_bb, p) for p in pushes)
+            if other_arith:
+                ck.ob("FIELD", nm + "/new-index", False, "%s derives the new index from Vec::len with arithmetic other than `- 1`" % nm, where=host.where(t.line))
+            elif pushed_before:
+                ck.ob("FIELD", nm + "/new-index", minus1, "%s pushes the merged set BEFORE reading the length: the new index is len%s" % (nm, " - 1" if minus1 else " (one past the pushed set)"), where=host.where(t.line))
+            elif pushed_after:
+                ck.ob("FIELD", nm + "/new-index", not minus1, "%s reads the length BEFORE pushing the merged set: the new index is len%s" % (nm, "" if not minus1 else " - 1 (the index of an OLD set)"), where=host.where(t.line))
+            else:
+                ck.undecided("FIELD", nm + "/new-index", "no push onto `sets` ordered with the length read", where=host.where(t.line))
